@@ -2762,10 +2762,10 @@ func (p *Parser) evaluateSliceAssignment(ctx context) (Statement, error) {
 		return nil, err
 	}
 	variableDataType := variableValueType.DataType()
-	assignedDataType := value.ValueType().DataType()
+	assignedValueType := value.ValueType()
 
-	if variableDataType != assignedDataType {
-		return nil, p.expectedError(fmt.Sprintf("%s value but got %s", variableDataType, assignedDataType), valueToken)
+	if !assignedValueType.Equals(NewValueType(variableDataType, false)) {
+		return nil, p.expectedError(fmt.Sprintf("%s value but got %s", variableDataType, assignedValueType.String()), valueToken)
 	}
 	return SliceAssignment{
 		Variable: variable,
